@@ -325,11 +325,11 @@ def _gen_type_case(draw, tier):
                        st.sampled_from([1, 2, 8, 16, 32, 64, 128, 256])))
     f = 0 if st_ == 'int' else draw(st.one_of(st.integers(0, l), st.sampled_from([0, l // 2, l])))
     k = draw(st.one_of(st.integers(1, 8), st.sampled_from([1, 8, 30, 30, 40, 64, 128]), st.integers(1, 128)))
-    m = draw(st.one_of(st.integers(1, 9), st.integers(1, 5)))
-    t = draw(st.integers(0, (m - 1) // 2))
+    m = draw(st.sampled_from([3, 5, 4, 7, 1, 2, 6, 8, 9]))
+    t = draw(st.sampled_from([(m - 1) // 2, 0, (m - 1) // 2, 1 if m >= 3 else 0]))
     n = draw(st.sampled_from([2, 2, 2, 1, 3, 5, 7, 11, 13, 257, 4, 6, 100]))
     puser = draw(st.integers(0, 3)) == 0
-    pdelta = draw(st.sampled_from([-2, -1, -1, 0, 0, 0, 1, 2, 5])) if puser else 0
+    pdelta = draw(st.sampled_from([0, 1, -1, 0, 2, -1, 0, -2, 5])) if puser else 0
     pr = draw(st.integers(0, 1 << 64)) if puser else 0
     pcomposite = draw(st.integers(0, 5)) == 0 if puser else False
     return _type_case(st_, l, f, k, m, t, n=n, seed=draw(st.integers(0, 2**20)), puser=puser, pdelta=pdelta,
